@@ -18,7 +18,8 @@ Inductive lop :=
 Inductive lres := LOk | LSkip | LConnErr | LChanErr | LHang | LOther.
 
 Record lchan := { lc_id : nat; lc_state : cstate; lc_confirm : bool; lc_inbound : nat;
-                  lc_errs : nat; lc_registered : bool }.
+                  lc_errs : list bool;   (* queued errors, oldest first; true = a returned message *)
+                  lc_registered : bool }.
 
 Record life := {
   lf_conn : cstate;
@@ -113,12 +114,12 @@ Definition chan_check (s : life) (k : nat) (c : lchan) : life * option lres :=
   let '(s1, raised) := conn_check s in
   if raised then (mark_closed s1 k, Some LConnErr)
   else match lc_errs c with
-       | S n => (if cstate_eqb (lc_state c) OPEN
+       | e :: n => (if cstate_eqb (lc_state c) OPEN || e
                  then upd_obj s k {| lc_id := lc_id c; lc_state := lc_state c; lc_confirm := lc_confirm c;
                                      lc_inbound := lc_inbound c; lc_errs := n;
                                      lc_registered := lc_registered c |}
                  else s, Some LChanErr)
-       | O => if cstate_eqb (lc_state c) CLOSED then (s, Some LChanErr) else (s, None)
+       | [] => if cstate_eqb (lc_state c) CLOSED then (s, Some LChanErr) else (s, None)
        end.
 
 Definition live (s : life) (c : lchan) : bool :=
@@ -157,7 +158,7 @@ Definition lstep (s : life) (o : lop) : life * lres :=
         let '(s2, raised) := conn_check s1 in
         if raised then (s2, LConnErr)
         else (with_objs s1 (objs ++ [{| lc_id := id; lc_state := OPEN; lc_confirm := false;
-                                        lc_inbound := 0; lc_errs := 0; lc_registered := true |}]), LOk)
+                                        lc_inbound := 0; lc_errs := []; lc_registered := true |}]), LOk)
       | (_, last, None) => (s, LConnErr)
       end
   | LDeclare k | LConfirm k =>
@@ -187,10 +188,10 @@ Definition lstep (s : life) (o : lop) : life * lres :=
                                         lc_inbound := lc_inbound c + 3; lc_errs := lc_errs c;
                                         lc_registered := true |}, LOk)
         | LReturn _ => (upd_obj s k {| lc_id := lc_id c; lc_state := lc_state c; lc_confirm := lc_confirm c;
-                                       lc_inbound := lc_inbound c + 2; lc_errs := S (lc_errs c);
+                                       lc_inbound := lc_inbound c + 2; lc_errs := lc_errs c ++ [true];
                                        lc_registered := true |}, LOk)
         | _ => (upd_obj s k {| lc_id := lc_id c; lc_state := CLOSED; lc_confirm := lc_confirm c;
-                               lc_inbound := 0; lc_errs := S (lc_errs c); lc_registered := true |}, LOk)
+                               lc_inbound := 0; lc_errs := lc_errs c ++ [false]; lc_registered := true |}, LOk)
         end
       else (s, LSkip)
     end
@@ -213,10 +214,10 @@ Definition lstep (s : life) (o : lop) : life * lres :=
     | Some c =>
       if cstate_eqb (lf_conn s) OPEN && lc_registered c && cstate_eqb (lc_state c) CLOSED then
         let fresh := {| lc_id := lc_id c; lc_state := OPEN; lc_confirm := false; lc_inbound := 0;
-                        lc_errs := 0; lc_registered := true |} in
+                        lc_errs := []; lc_registered := true |} in
         let '(s1, raised) := conn_check s in
         if raised then (mark_closed (upd_obj s1 k {| lc_id := lc_id c; lc_state := CLOSED; lc_confirm := false;
-                                                     lc_inbound := 0; lc_errs := 0;
+                                                     lc_inbound := 0; lc_errs := [];
                                                      lc_registered := false |}) k, LConnErr)
         else (upd_obj s k fresh, LOk)
       else (s, LSkip)
@@ -248,7 +249,7 @@ Definition lres_eqb (a b : lres) : bool :=
 Definition lchan_eqb (a b : lchan) : bool :=
   Nat.eqb (lc_id a) (lc_id b) && cstate_eqb (lc_state a) (lc_state b) &&
   Bool.eqb (lc_confirm a) (lc_confirm b) && Nat.eqb (lc_inbound a) (lc_inbound b) &&
-  Nat.eqb (lc_errs a) (lc_errs b) && Bool.eqb (lc_registered a) (lc_registered b).
+  list_eqb Bool.eqb (lc_errs a) (lc_errs b) && Bool.eqb (lc_registered a) (lc_registered b).
 Definition lobs_eqb (a b : lobs) : bool :=
   lres_eqb (lo_res a) (lo_res b) && cstate_eqb (lo_conn a) (lo_conn b) &&
   list_eqb Nat.eqb (lo_reg a) (lo_reg b) && Nat.eqb (lo_socks a) (lo_socks b) &&
@@ -299,7 +300,7 @@ Fixpoint reopened_ok (ops : list lop) (obs : list lobs) : bool :=
   | LChOpen k :: ro, b :: rb =>
     (match lo_res b, nth_error (lo_chans b) k with
      | LOk, Some c => cstate_eqb (lc_state c) OPEN && negb (lc_confirm c) &&
-                      Nat.eqb (lc_inbound c) 0 && Nat.eqb (lc_errs c) 0
+                      Nat.eqb (lc_inbound c) 0 && match lc_errs c with [] => true | _ => false end
      | _, _ => true
      end) && reopened_ok ro rb
   | _ :: ro, _ :: rb => reopened_ok ro rb
